@@ -231,17 +231,21 @@ def run(rep):
         rep.ok('C19.d.stdout-drained', 'no-bare-wait', '', 'the child is only waited for by wait_with_output(), which drains stdout while waiting')
     # ---- e: returned text is an identity image of the tokens or of the captured stdout -----------------------------
     n_e = 0
-    for fn in sorted(F):
-        body = mir.bodies[fn]
+    for fn, body in views:
+        # a root of the formatter functions is judged with its helpers (a `Formatter` builder, staged checks) inlined; the helpers are judged there
         if 'String' not in body.locals[0]:
             continue
         n_e += 1
-        sl, calls, stmts = body.backward_slice([0], through_calls=True)
+        # what configures the child (`Command::new(program).arg(..)`) is not text of the result: the slice stops at the command builder
+        sl, calls, stmts = body.backward_slice([0], through_calls=True, cut=lambda t_: cname(t_).startswith('std::process::Command::'))
         bad = []
         for b, c in calls:
             cn = cname(c)
             if cn in F or cn in IDENTITY_OK or cn.startswith(IDENTITY_PREFIX):
                 continue
+            dty = body.locals[c['dest']['l']] if c.get('dest') else ''
+            if not any(k_ in dty for k_ in ('String', 'str', 'u8', 'Output', 'Child', 'TokenStream', 'Cow', 'char', 'OsStr', 'Path', 'Vec', 'Box', 'dyn ', 'closure')):
+                continue        # the value it yields cannot carry text (an error value built on a failure path: `ErrorKind::BrokenPipe.into()`)
             bad.append((b, cn))
         consts = []
         for b, st in stmts:
@@ -282,21 +286,47 @@ def deep_calls(mir, body, calls):
 
 
 def stdout_uses(body):
-    """blocks where field `stdout` of std::process::Output is moved/copied somewhere other than an emptiness test"""
+    """blocks where field `stdout` of std::process::Output is moved/copied somewhere other than an emptiness test.  A plain move of the bytes into
+    a local (the parameter of an inlined helper: `formatted_output(output.stdout)`) is not yet a use: the local is followed"""
     out = []
+    holders, seen = [], set()
+
+    def is_stdout(p):
+        return any(isinstance(e, dict) and e.get('f') == 'stdout' and 'process::Output' in e.get('adt', '') for e in p['p'])
+
+    def holds(p):
+        return is_stdout(p) or (p['l'] in seen and not p['p'])
+    changed = True
+    while changed:
+        changed = False
+        for b, blk in enumerate(body.blocks):
+            for st in blk['stmts']:
+                rv = st['rv']
+                if rv['rk'] == 'use' and not st['lhs']['p'] and st['lhs']['l'] not in seen and st['lhs']['l'] != 0 and \
+                        any(holds(p) for p in body.rvalue_places(rv)) and 'Vec<u8>' in body.locals[st['lhs']['l']] and len(body.defs().get(st['lhs']['l'], [])) == 1:
+                    seen.add(st['lhs']['l'])
+                    changed = True
     for b, blk in enumerate(body.blocks):
         for st in blk['stmts']:
             rv = st['rv']
             for p in body.rvalue_places(rv):
-                if any(isinstance(e, dict) and e.get('f') == 'stdout' and 'process::Output' in e.get('adt', '') for e in p['p']):
+                if holds(p):
                     if rv['rk'] == 'ref':
                         # a borrow: look at what the reference is handed to
                         l = st['lhs']['l']
                         for b2, t2 in body.calls():
                             if any(op_local(a) == l for a in t2['args']) and method(cname(t2)) not in ('is_empty', 'len'):
                                 out.append((b2, cname(t2)))
+                    elif rv['rk'] == 'use' and not st['lhs']['p'] and st['lhs']['l'] in seen:
+                        pass        # handed on to a local that is followed
                     else:
                         out.append((b, 'moved'))
+        t = blk['term']
+        if t['k'] == 'call':
+            for a in t['args']:
+                pl = op_place(a)
+                if pl is not None and pl['l'] in seen and not pl['p']:
+                    out.append((b, cname(t)))
     return out
 
 
